@@ -5,6 +5,9 @@ package text
 // for EVERY 16-bit value, without error or panic; list fields render through list.go's String().
 
 import (
+	"math"
+	"strconv"
+
 	"capnproto.org/go/capnp/v3"
 	"capnproto.org/go/capnp/v3/internal/schema"
 	"capnproto.org/go/capnp/v3/schemas"
@@ -176,5 +179,104 @@ func VH_C20_list_fields() {
 	if err == nil && ev >= 2 {
 		n := len(b.b)
 		vAssert(n >= 6 && b.b[0] == '[' && b.b[n-1] == ']' && b.b[n-2] == 'a' && b.b[n-3] == ' ' && b.b[n-4] == ',', "C20.enumlist.number-then-name")
+	}
+}
+
+// third schema: struct V { a @0 :UInt8; union { x @1 :UInt16; y @2 :Float64; } } - only the active
+// union member is shown, whatever bits the inactive one holds; an unknown discriminant shows none
+const vTypeV = 0xabcdef0123456703
+
+func vSchema3() *schemas.Registry {
+	msg, seg, err := capnp.NewMessage(capnp.SingleSegment(nil))
+	vAssume(err == nil)
+	req, err := schema.NewRootCodeGeneratorRequest(seg)
+	vAssume(err == nil)
+	nodes, err := req.NewNodes(1)
+	vAssume(err == nil)
+	n := nodes.At(0)
+	n.SetId(vTypeV)
+	vAssume(n.SetDisplayName("t.capnp:V") == nil)
+	n.SetDisplayNamePrefixLength(8)
+	n.SetStructNode()
+	sn := n.StructNode()
+	sn.SetDataWordCount(2)
+	sn.SetPointerCount(0)
+	sn.SetDiscriminantCount(2)
+	sn.SetDiscriminantOffset(1) // bytes 2..3
+	fl, err := sn.NewFields(3)
+	vAssume(err == nil)
+	vField(fl, 0, "a", 0).SetUint8() // byte 0
+	tx := vField(fl, 1, "x", 2)      // bytes 4..5
+	tx.SetUint16()
+	fl.At(1).SetDiscriminantValue(0)
+	ty := vField(fl, 2, "y", 1) // bytes 8..15
+	ty.SetFloat64()
+	fl.At(2).SetDiscriminantValue(1)
+	for i := 0; i < 3; i++ {
+		d, err := fl.At(i).Slot().NewDefaultValue()
+		vAssume(err == nil)
+		switch i {
+		case 0:
+			d.SetUint8(0)
+		case 1:
+			d.SetUint16(0)
+		default:
+			d.SetFloat64(0)
+		}
+	}
+	data, err := msg.Marshal()
+	vAssume(err == nil)
+	reg := new(schemas.Registry)
+	vAssume(reg.Register(&schemas.Schema{Bytes: data, Nodes: []uint64{vTypeV}}) == nil)
+	return reg
+}
+
+func VH_C20_union_active_member_only() {
+	reg := vSchema3()
+	_, seg, err := capnp.NewMessage(capnp.SingleSegment(nil))
+	vAssume(err == nil)
+	s, err := capnp.NewStruct(seg, capnp.ObjectSize{DataSize: 16})
+	vAssume(err == nil)
+	a, x, y := vNondetU8(), vNondetU16(), vNondetU64()
+	which := uint16(0)
+	switch vNondetU8() % 3 {
+	case 1:
+		which = 1
+	case 2:
+		which = vNondetU16()
+		vAssume(which >= 2)
+	}
+	s.SetUint8(0, a)
+	s.SetUint16(2, which)
+	s.SetUint16(4, x)
+	s.SetUint64(8, y)
+	b := &vBuf{}
+	enc := NewEncoder(b)
+	enc.UseRegistry(reg)
+	err = enc.Encode(vTypeV, s)
+	vReach("rendered")
+	vAssert(err == nil, "C20.union.no-error")
+	if err != nil {
+		return
+	}
+	var want []byte
+	want = append(want, "(a = "...)
+	want = strconv.AppendUint(want, uint64(a), 10)
+	switch {
+	case which == 0:
+		want = append(want, ", x = "...)
+		want = strconv.AppendUint(want, uint64(x), 10)
+	case which == 1:
+		want = append(want, ", y = "...)
+		want = strconv.AppendFloat(want, math.Float64frombits(y), 'g', -1, 64)
+	}
+	want = append(want, ')')
+	vAssert(len(b.b) == len(want), "C20.union.only-the-active-member-is-shown")
+	if len(b.b) == len(want) {
+		for j := 0; j < 5; j++ {
+			vAssert(b.b[j] == want[j], "C20.union.bytes-equal-reference")
+		}
+		n := len(want)
+		vAssert(b.b[n-1] == ')', "C20.union.closed")
 	}
 }
